@@ -24,6 +24,7 @@ from ..npmodel import P as P_
 
 
 def product_shape_rule(chk, repo, clause):
+    plane_shape_rule(chk, repo, clause)
     """Plane.multiply: the new wavefront has the plane's shape, the wavefront's only for a plane without one (C07-e; C08-f: with
     the test on the wrong operand no plane can be applied after a DFT propagation, whose wavefront shape is an array)"""
     wf = repo.cls('wavefront.Wavefront')
@@ -53,6 +54,64 @@ def product_shape_rule(chk, repo, clause):
                  "wavefront's shape, and the comparison of an ndarray shape with () raises") if other else 'undecided: shape selection not recognised'
     chk.ob(clause, 'D-flow', f.key, 'the product takes the shape of the plane (of the wavefront for a plane without one)', oksh,
            detsh or f'{nsh} construction(s)', f.loc())
+
+
+def plane_shape_rule(chk, repo, clause):
+    """`Plane.shape` is the (rows, cols) of one segment: the shape of a 2-D mask, axes 1 and 2 - in that order - of a
+    (segments, rows, cols) mask.  It sizes the product wavefront and is the reference of every segment's offset."""
+    cls = repo.cls('plane.Plane')
+    g = cls.find_method('shape')
+    if g is None or not g.is_property:
+        return
+    _, paths, _ = analyse(repo, g, types={('sym', 'self'): cls})
+    masks = (nf.attr(S('self'), 'mask'), nf.attr(S('self'), '_mask'))
+    ok, det, n = None, '', 0
+    for p in returns(paths):
+        r = p.ret
+        n += 1
+        good = None
+        if any(r == nf.attr(m, 'shape') for m in masks):
+            good = True
+        elif isinstance(r, Tup) and len(r) == 2:
+            good = any(r.items[0] == nf.index(nf.attr(m, 'shape'), C(1)) and r.items[1] == nf.index(nf.attr(m, 'shape'), C(2)) for m in masks)
+            if not good and not any(isinstance(i, Poly) and i.single_atom() is not None and i.single_atom()[0] == 'idx' for i in r.items):
+                good = None
+        elif isinstance(r, Poly) and r.single_atom() is not None and r.single_atom()[0] == 'idx' and isinstance(r.single_atom()[2], Slice):
+            sl = r.single_atom()[2]
+            base_ok = any(Poly.atom(r.single_atom()[1]) == nf.attr(m, 'shape') for m in masks)
+            good = base_ok and ((sl.lo == C(1) and sl.hi in (NONE, C(3))) or (sl.lo == C(-2) and sl.hi == NONE))
+        if good is False:
+            ok, det = False, f'[{conds_str(p)[:60]}] returns {fmt(r)[:80]}: not (rows, cols) of the mask'
+        elif good is True and ok is None:
+            ok = True
+    chk.ob(clause, 'N-identity', g.key, 'the shape of a plane is (rows, cols) of its mask: axes 1 and 2 of a segmented mask, in that order',
+           ok, det or f'{n} path(s)', g.loc())
+
+
+def pixelscale_guard_rule(chk, repo, clause):
+    """`_mul_pixelscale` refuses exactly the pairs whose (row, col) scales differ in a component - row against row, column
+    against column."""
+    fg, paths, _ = analyse(repo, 'plane._mul_pixelscale', config={'a_pixelscale': pair_('a_pixelscale'),
+                                                               'b_pixelscale': pair_('b_pixelscale')})
+    a, b = pair_('a_pixelscale'), pair_('b_pixelscale')
+    want = nf.app('and', nf.app('eq', a.items[0], b.items[0]), nf.app('eq', a.items[1], b.items[1]))
+    raises = [p for p in paths if p.status == 'raise' and p.exc == 'ValueError']
+    okg = len(raises) == 1 and any(c == want and pol is False for c, pol, _ in raises[0].conds)
+    rets_g = [p for p in returns(paths)]
+    okg = okg and all(p.ret in (a, b, Tup(a.items), Tup(b.items)) for p in rets_g)
+    if not okg and raises and all(p.ret in (a, b, Tup(a.items), Tup(b.items)) for p in rets_g):
+        # the same guard written another way (`a[0] != b[0] or a[1] != b[1]`, nested ifs): decided over the four outcomes of
+        # the two component comparisons - the call raises exactly when one of them differs
+        okg = _guard_table(paths, a, b)
+    crossed = [fmt(Poly.atom(x))[:60] for p in paths for c, _pol, _n in p.conds for x in nf.value_atoms(c)
+               if is_app(x, ('eq', 'ne')) and len(x[2]) == 2 and
+               any({nf.vkey(x[2][0]), nf.vkey(x[2][1])} == {nf.vkey(a.items[i]), nf.vkey(b.items[1 - i])} for i in (0, 1))]
+    if crossed:
+        okg = False
+    chk.ob(clause, 'D-guard', fg.key, 'ValueError unless both components agree', okg,
+           (f'{crossed[0]}: the row scale of one operand is compared with the column scale of the other - equal per-axis scales are refused, '
+            'transposed ones accepted') if crossed else '' if okg else ('the refusal is not guarded by equality of both pixel-scale components' if okg is False else
+                           'undecided: the conditions of the refusal are not comparisons of the pixel-scale components'), fg.loc())
 
 
 def insert_stores(repo, intensity):
@@ -119,6 +178,9 @@ def run(chk, repo, tier):
     # on the copy - fit_tilt(inplace=False) subtracts in place - change what the original multiplies by
     from .c10 import plane_copy_rules
     plane_copy_rules(chk, repo, 'C07-o')
+    # passing through a plane yields a new wavefront: the product of a field and a phasor is a Field of its own
+    from .common import mul_concat as _mul_concat7
+    _mul_concat7(chk, repo, 'C07-o')
     from .common import operands_untouched
     operands_untouched(chk, repo, 'C07-o', ['wavefront.Wavefront.intensity', 'wavefront.Wavefront.field', 'wavefront.Wavefront.insert', 'plane.Plane.multiply', 'wavefront.Wavefront.__mul__', 'wavefront.Wavefront.__rmul__', 'field.merge', 'field._merge', 'field.reduce', 'field.Field.__mul__'], allow=[('wavefront.Wavefront.insert', 'out')])
     chk.clause('C07-a', 'intensity = |coherent field|^2: reduce before modulus; the two insert branches differ only by abs(.**2)', 3)
@@ -262,6 +324,8 @@ def run(chk, repo, tier):
             pa = px.single_atom() if isinstance(px, Poly) else None
             okp = okp and pa is not None and is_app(pa, 'call:plane._mul_pixelscale')
     product_shape_rule(chk, repo, 'C07-e')
+    from .common import ctor_forwarding_rule
+    ctor_forwarding_rule(chk, repo, 'C07-d')
     chk.ob('C07-e', 'D-flow', f.key, 'wavelength unchanged', okw and n > 0, '', f.loc())
     chk.ob('C07-e', 'D-flow', f.key, 'focal length forwarded', okf and n > 0, '', f.loc())
     chk.ob('C07-e', 'D-flow', f.key, 'pixel scale reconciled by _mul_pixelscale', okp and n > 0, '', f.loc())
@@ -304,21 +368,7 @@ def run(chk, repo, tier):
            f'with amplitude=1, opd=0, mask=1 the phasor is {sorted(vals)}', f2.loc())
 
     # ---------------------------------------------------------------- C07-g
-    fg, paths, _ = analyse(repo, 'plane._mul_pixelscale', config={'a_pixelscale': pair_('a_pixelscale'),
-                                                               'b_pixelscale': pair_('b_pixelscale')})
-    a, b = pair_('a_pixelscale'), pair_('b_pixelscale')
-    want = nf.app('and', nf.app('eq', a.items[0], b.items[0]), nf.app('eq', a.items[1], b.items[1]))
-    raises = [p for p in paths if p.status == 'raise' and p.exc == 'ValueError']
-    okg = len(raises) == 1 and any(c == want and pol is False for c, pol, _ in raises[0].conds)
-    rets_g = [p for p in returns(paths)]
-    okg = okg and all(p.ret in (a, b, Tup(a.items), Tup(b.items)) for p in rets_g)
-    if not okg and raises and all(p.ret in (a, b, Tup(a.items), Tup(b.items)) for p in rets_g):
-        # the same guard written another way (`a[0] != b[0] or a[1] != b[1]`, nested ifs): decided over the four outcomes of
-        # the two component comparisons - the call raises exactly when one of them differs
-        okg = _guard_table(paths, a, b)
-    chk.ob('C07-g', 'D-guard', fg.key, 'ValueError unless both components agree', okg,
-           '' if okg else ('the refusal is not guarded by equality of both pixel-scale components' if okg is False else
-                           'undecided: the conditions of the refusal are not comparisons of the pixel-scale components'), fg.loc())
+    pixelscale_guard_rule(chk, repo, 'C07-g')
 
 
 def _guard_table(paths, a, b):
